@@ -447,3 +447,181 @@ def krylov_memo_keys(chk, prog, rule="T4"):
         chk.verdict(rule, f, f"{name}: memo key {sorted(writes)}", True if ok else False,
                     f"{name}: the Krylov-dimension memo is tested/read/written under different keys (tested {sorted(tests)}, read "
                     f"{sorted(reads)}, written {sorted(writes)}): a site inherits another site's Krylov dimension")
+
+
+# ------------------------------------------------------------- conjugation typing (sesquilinearity)
+STRUCTURAL = {"fuse_legs", "unfuse_legs", "transpose", "add_leg", "remove_leg", "drop_leg_history", "swap_gate", "copy", "clone",
+              "move_leg", "moveaxis", "flip_signature"}
+
+
+class ConjTyping:
+    """Origin and conjugation parity of tensor expressions inside one environment method.
+
+    origin in {BRA, KET, OP, IN}: site tensors of self.bra / self.ket / self.op and the method's input tensor(s).
+    `.conj()` flips the parity, structural operations (fuse/transpose/...) keep origin and parity, contractions lose the
+    origin (their result is a mixed object).  At every contraction the operands with a known origin are checked:
+    BRA operands must enter conjugated, KET/OP/IN operands un-conjugated — that is what makes F a representation of
+    <bra|op|ket> and Heff a linear operator on its input."""
+
+    def __init__(self, f, inputs):
+        self.f = f
+        self.inputs = set(inputs)
+        self.b = A.local_bindings(f.node)
+        self.me = f.params[0] if f.params else "self"
+
+    def typ(self, node, depth=0):
+        """-> set of (origin, parity)"""
+        if depth > 8:
+            return set()
+        if isinstance(node, ast.Name):
+            if node.id in self.inputs:
+                return {("IN", 0)}
+            out = set()
+            for st, v, k in self.b.get(node.id, []):
+                if v is not None and k == "assign":
+                    out |= self.typ(v, depth + 1)
+            return out
+        if isinstance(node, ast.Subscript):
+            t = A.text(node.value)
+            for org, pats in (("BRA", (f"{self.me}.bra.A", f"{self.me}.bra")), ("KET", (f"{self.me}.ket.A", f"{self.me}.ket")),
+                              ("OP", (f"{self.me}.op.A", f"{self.me}.op"))):
+                if t in pats:
+                    return {(org, 0)}
+            return set()
+        if isinstance(node, ast.Call) and isinstance(node.func, ast.Attribute):
+            at = node.func.attr
+            if at == "conj" and not node.args:
+                return {(o, 1 - p) for o, p in self.typ(node.func.value, depth + 1)}
+            if at in STRUCTURAL:
+                return self.typ(node.func.value, depth + 1)
+            return set()
+        if isinstance(node, ast.Attribute) and node.attr == "H":
+            return {(o, 1 - p) for o, p in self.typ(node.value, depth + 1)}
+        if isinstance(node, ast.IfExp):
+            return self.typ(node.body, depth + 1) | self.typ(node.orelse, depth + 1)
+        return set()
+
+    def contraction_operands(self):
+        """(site node, operand node, extra conj flag)"""
+        for n in A.walk_local(self.f.node, include_self=False):
+            if isinstance(n, ast.BinOp) and isinstance(n.op, ast.MatMult):
+                yield n, n.left, 0
+                yield n, n.right, 0
+            elif isinstance(n, ast.Call):
+                nm = A.call_name(n) or ""
+                at = A.callee_attr(n)
+                if nm in ("tensordot", "vdot") or (at in ("tensordot", "vdot") and isinstance(n.func, ast.Attribute)):
+                    ops = list(n.args[:2])
+                    if isinstance(n.func, ast.Attribute) and nm not in ("tensordot", "vdot"):
+                        ops = [n.func.value] + list(n.args[:1])
+                    cj = A.kwarg(n, "conj")
+                    default = (1, 0) if (at == "vdot" or nm == "vdot") else (0, 0)
+                    flags = default
+                    if cj is not None:
+                        try:
+                            flags = tuple(int(x) for x in ast.literal_eval(cj))
+                        except Exception:
+                            raise AnalysisError(f"{self.f.short}: non-literal conj= in `{A.short(n, 60)}`")
+                    for o, fl in zip(ops, flags):
+                        yield n, o, fl
+                elif nm in ("ncon", "einsum") or at in ("ncon", "einsum"):
+                    lst = n.args[0] if nm == "ncon" or at == "ncon" else None
+                    cj = A.kwarg(n, "conjs")
+                    if isinstance(lst, (ast.List, ast.Tuple)):
+                        flags = [0] * len(lst.elts)
+                        if cj is not None:
+                            try:
+                                flags = [int(x) for x in ast.literal_eval(cj)]
+                            except Exception:
+                                raise AnalysisError(f"{self.f.short}: non-literal conjs= in `{A.short(n, 60)}`")
+                        for o, fl in zip(lst.elts, flags):
+                            yield n, o, fl
+                elif at in ("broadcast", "apply_mask") and isinstance(n.func, ast.Attribute):
+                    pass
+
+
+def check_conj_typing(chk, rule, f, inputs):
+    ct = ConjTyping(f, inputs)
+    n = 0
+    for site, operand, flag in ct.contraction_operands():
+        ts = ct.typ(operand)
+        for org, par in sorted(ts):
+            eff = (par + flag) % 2
+            want = 1 if org == "BRA" else 0
+            n += 1
+            role = {"BRA": "a site tensor of the bra", "KET": "a site tensor of the ket", "OP": "a site tensor of the operator",
+                    "IN": "the input tensor of the effective operator"}[org]
+            why = ("the bra enters <bra|...|ket> conjugated; un-conjugated it gives a bilinear form that agrees with the inner product only for real tensors"
+                   if org == "BRA" else
+                   "the map must be linear in its input / the ket and operator enter un-conjugated; conjugating it agrees only for real tensors "
+                   "(antilinear effective operator: Krylov/eigen-solvers then work with a non-Hermitian map for complex states)")
+            chk.verdict(rule, (f, site), f"{org}{'*' if eff else ''} `{A.short(operand, 40)}` in `{A.short(site, 60)}`", True if eff == want else False,
+                        f"{f.short}: `{A.short(operand, 50)}` is {role} and enters the contraction `{A.short(site, 70)}` "
+                        f"{'conjugated' if eff else 'un-conjugated'}: {why}")
+    return n
+
+
+def check_projector_form(chk, rule, f, inp):
+    """penalty operator  A -> X * (p * <X|A>)  : the scaled vector is the conjugated argument of vdot, the other is the input"""
+    rets = [r for r in A.returns_of(f.node) if r.value is not None]
+    ok = False
+    for r in rets:
+        v = r.value
+        if not (isinstance(v, ast.BinOp) and isinstance(v.op, ast.Mult)):
+            continue
+        for vec, sc in ((v.left, v.right), (v.right, v.left)):
+            vd = [c for c in ast.walk(sc) if isinstance(c, ast.Call) and (A.call_name(c) == "vdot" or A.callee_attr(c) == "vdot")]
+            if len(vd) != 1 or len(vd[0].args) != 2:
+                continue
+            cj = A.kwarg(vd[0], "conj")
+            flags = (1, 0) if cj is None else tuple(ast.literal_eval(cj))
+            a0, a1 = vd[0].args
+            if flags == (0, 1):
+                a0, a1 = a1, a0
+                flags = (1, 0)
+            ok = flags == (1, 0) and A.text(a0) == A.text(vec) and A.text(a1) == inp and "penalty" in A.text(sc)
+    chk.verdict(rule, f, f"{f.short}: returns X * (penalty * <X|{inp}>)", True if ok else False,
+                f"{f.short}: the penalty term must be the rank-one Hermitian operator penalty * |X><X| applied to `{inp}` "
+                f"(vdot conjugates the projected state X, not the input); otherwise the operator is antilinear/non-Hermitian for complex states "
+                f"and excited-state DMRG no longer avoids the listed states")
+
+
+def check_krylov_combination(chk, rule, f, min_sites=1):
+    """Vectors leaving a Krylov solver are combinations of the orthonormal basis list only: V[0].add(*V[1:], amplitudes=...)"""
+    fn = f.node
+    b = A.local_bindings(fn)
+    basis = set()
+    for n in ast.walk(fn):
+        if isinstance(n, ast.Assign) and isinstance(n.value, ast.Call) and A.callee_attr(n.value) == "expand_krylov_space" \
+                and isinstance(n.targets[0], ast.Tuple):
+            basis.add(A.text(n.targets[0].elts[0]))
+    chk.require(basis, f"{f.short}: call of expand_krylov_space not found")
+    adds = [c for c in ast.walk(fn) if isinstance(c, ast.Call) and A.callee_attr(c) == "add" and A.kwarg(c, "amplitudes") is not None]
+    chk.require(len(adds) >= min_sites, f"{f.short}: linear combination `.add(..., amplitudes=)` not found")
+    for c in adds:
+        recv = c.func.value
+        ok = isinstance(recv, ast.Subscript) and A.text(recv.value) in basis and A.neg_const(recv.slice) == 0
+        V = A.text(recv.value) if isinstance(recv, ast.Subscript) else None
+        rest = len(c.args) == 1 and isinstance(c.args[0], ast.Starred) and A.text(c.args[0].value) == f"{V}[1:]"
+        chk.verdict(rule, (f, c), c, True if (ok and rest) else False,
+                    f"{f.short}: the returned vector `{A.short(c, 70)}` is not a combination of the orthonormal Krylov vectors "
+                    f"{sorted(basis)}[0], *[1:] only: amplitudes from the projected problem refer to the normalised basis; using the "
+                    f"un-normalised start vector gives a wrong vector whenever its norm is not 1")
+    # the basis starts from the start vector divided by its own norm
+    firsts = [n for n in ast.walk(fn) if isinstance(n, ast.Assign) and A.text(n.targets[0]) in basis and isinstance(n.value, ast.List) and len(n.value.elts) == 1]
+    for n in firsts:
+        e = n.value.elts[0]
+        ok = False
+        if isinstance(e, ast.BinOp) and isinstance(e.op, ast.Div):
+            num, den = A.text(e.left), e.right
+            dd = [v for st, v, k in b.get(A.text(den), []) if v is not None]
+            ok = bool(dd) and all(isinstance(v, ast.Call) and A.callee_attr(v) == "norm" and A.text(v.func.value) == num for v in dd)
+        elif isinstance(e, ast.Name):
+            # v was normalised before: v = v / normv with normv = v.norm()
+            for st, v, k in b.get(e.id, []):
+                if isinstance(v, ast.BinOp) and isinstance(v.op, ast.Div) and A.text(v.left) == e.id:
+                    dd = [vv for st2, vv, k2 in b.get(A.text(v.right), []) if vv is not None]
+                    if dd and isinstance(dd[0], ast.Call) and A.callee_attr(dd[0]) == "norm" and A.text(dd[0].func.value) == e.id:
+                        ok = True
+        chk.verdict(rule, (f, n), n, True if ok else False,
+                    f"{f.short}: the first Krylov vector `{A.short(n, 50)}` is not the start vector divided by its own norm")
